@@ -128,7 +128,9 @@ func cmdC16(args []string) error {
 		dmg := []string{"bad", "missing"}
 		if !*small {
 			// ("wide": at least 64 contiguous damaged blocks in a file of unchanged size - the wound aggregator's limit)
-			dmg = []string{"bad", "missing", "bad", "missing", "linked", "endless", "dir", "longer", "shorter", "wide"}
+			// ("bad-early": one flipped byte in the FIRST block of a file of several blocks, size unchanged - healthy blocks
+			//  of the same file follow the wound through the per-file relay and the aggregator)
+			dmg = []string{"bad", "missing", "bad-early", "missing", "linked", "endless", "dir", "longer", "shorter", "wide", "bad-early", "bad-early"}
 		}
 		for i := 0; i < run.NFiles; i++ {
 			kind := "ok"
@@ -225,6 +227,9 @@ func cmdC16(args []string) error {
 			if run.NFiles < 20 && rng.Intn(3) == 0 {
 				sz = BS + rng.Intn(2*BS)
 			}
+			if run.Kinds[i] == "bad-early" {
+				sz = 3*BS + rng.Intn(BS)
+			}
 			if run.Kinds[i] == "wide" {
 				if nwide < 2 {
 					sz = (64+rng.Intn(12))*BS + []int{0, 1, 1234}[rng.Intn(3)]
@@ -263,6 +268,10 @@ func cmdC16(args []string) error {
 				os.WriteFile(p, b, 0644)
 			case "missing":
 				os.Remove(p)
+			case "bad-early":
+				b, _ := os.ReadFile(p)
+				b[rng.Intn(BS)] ^= 0x10
+				os.WriteFile(p, b, 0644)
 			case "wide":
 				b, _ := os.ReadFile(p)
 				from := 0
